@@ -638,7 +638,7 @@ Proof.
     - unfold paa_apply in H.
       destruct ((m =? 0)%nat || (first_len p <? m)%nat || negb (rectangular p)); [discriminate|].
       injection H as <-. reflexivity.
-    - unfold iseg_int, iseg_int_with in H.
+    - unfold iseg_int in H.
       destruct (negb (univariate p) || negb (equal_length p) || (k =? 0)%nat
                 || (first_len pfit / 2 <? k)%nat); [discriminate|].
       injection H as <-. reflexivity.
@@ -1129,6 +1129,139 @@ Lemma impute_neighbours (l : oseries) t :
   (forall tn vn, next_obs l t = Some (tn, vn) ->
      (t < tn)%nat /\ nth tn l None = Some vn /\ forall u, (t < u < tn)%nat -> nth u l None = None).
 Proof. split; [apply prev_obs_spec|apply next_obs_spec]. Qed.
+
+(* ---------- drift: the fitted trend is the least-squares line; every gap takes its value ------ *)
+
+Lemma qsum_cons x l : qsum (x :: l) = x + qsum l.
+Proof. reflexivity. Qed.
+Lemma map2_cons {A B C} (f : A -> B -> C) a b l1 l2 :
+  map2 f (a :: l1) (b :: l2) = f a b :: map2 f l1 l2.
+Proof. reflexivity. Qed.
+
+Lemma qsum_nonneg_sq c : forall (l : series), 0 <= qsum (map (fun a => (a - c) * (a - c)) l).
+Proof.
+  induction l as [|x l IH]; cbn [map]; [apply Qle_refl|]. rewrite qsum_cons.
+  assert (0 <= (x - c) * (x - c)) by (set (d := x - c); nra). lra.
+Qed.
+Lemma centered_sq_pos c n : (2 <= n)%nat ->
+  0 < qsum (map (fun a => (a - c) * (a - c)) (map Qn (seq 0 n))).
+Proof.
+  destruct n as [|[|n]]; try lia. intros _. cbn [seq map]. rewrite !qsum_cons.
+  pose proof (qsum_nonneg_sq c (map Qn (seq 2 n))) as H.
+  change (Qn 0) with 0. change (Qn 1) with 1.
+  assert (0 <= (2 * c - 1) * (2 * c - 1)) by (set (d := 2 * c - 1); nra). lra.
+Qed.
+
+(* sum of residual * x  =  sum of residual * (x - c)  +  c * sum of residuals *)
+Lemma resid_split (f : Q -> Q -> Q) c : forall (y x : series), length y = length x ->
+  qsum (map2 (fun yi xi => f yi xi * xi) y x) ==
+  qsum (map2 (fun yi xi => f yi xi * (xi - c)) y x) + c * qsum (map2 f y x).
+Proof.
+  induction y as [|yi y IH]; intros [|xi x] H; cbn [length] in H; try discriminate.
+  - cbn. ring.
+  - rewrite !map2_cons, !qsum_cons, IH by lia. ring.
+Qed.
+(* with intercept ym - b xm the residuals are the centred ones *)
+Lemma resid_centered xm ym b : forall (y x : series), length y = length x ->
+  qsum (map2 (fun yi xi => (yi - (ym - b * xm) - b * xi) * (xi - xm)) y x) ==
+  qsum (map2 (fun a c => (a - xm) * (c - ym)) x y)
+  - b * qsum (map (fun a => (a - xm) * (a - xm)) x).
+Proof.
+  induction y as [|yi y IH]; intros [|xi x] H; cbn [length] in H; try discriminate.
+  - cbn. ring.
+  - rewrite !map2_cons. cbn [map]. rewrite !qsum_cons, IH by lia. ring.
+Qed.
+
+(* normal equations of the line fitted by Imputer("drift") (PolynomialTrendForecaster(degree=1)
+   over the positions 0..n-1): residuals sum to zero and are orthogonal to the regressor *)
+Lemma ols_line_is_ols (y : series) : (2 <= length y)%nat ->
+  let x := map Qn (seq 0 (length y)) in
+  let a := fst (ols_line y) in
+  let b := snd (ols_line y) in
+  qsum (map2 (fun yi xi => yi - a - b * xi) y x) == 0 /\
+  qsum (map2 (fun yi xi => (yi - a - b * xi) * xi) y x) == 0.
+Proof.
+  intro Hn. cbv zeta. unfold ols_line. cbv zeta.
+  pose proof (centered_sq_pos (qmean (map Qn (seq 0 (length y)))) (length y) Hn) as Hpos.
+  pose proof (Qn_pos (length y) ltac:(lia)) as HN.
+  assert (Hlen : length y = length (map Qn (seq 0 (length y)))).
+  { rewrite map_length, seq_length. reflexivity. }
+  destruct (Qeq_bool _ 0) eqn:E; [apply Qeq_bool_eq in E; lra|]. clear E.
+  cbn [fst snd].
+  set (x := map Qn (seq 0 (length y))) in *.
+  set (xm := qmean x) in *. set (ym := qmean y).
+  set (sxx := qsum (map (fun a => (a - xm) * (a - xm)) x)) in *.
+  set (sxy := qsum (map2 (fun a b => (a - xm) * (b - ym)) x y)).
+  assert (Hb : sxy / sxx * sxx == sxy) by (field; lra).
+  set (b := sxy / sxx) in *.
+  assert (H1 : qsum (map2 (fun yi xi => yi - (ym - b * xm) - b * xi) y x) == 0).
+  { rewrite resid_sum by exact Hlen. unfold ym, xm, qmean. rewrite <- Hlen. field. lra. }
+  split; [exact H1|].
+  rewrite (resid_split (fun yi xi => yi - (ym - b * xm) - b * xi) xm) by exact Hlen.
+  rewrite H1, resid_centered by exact Hlen. fold sxy. fold sxx. rewrite <- Hb. ring.
+Qed.
+
+Lemma all_some_observed : forall (l : oseries),
+  (forall t, (t < length l)%nat -> nth t l None <> None) -> map Some (observed l) = l.
+Proof.
+  induction l as [|[x|] l IH]; intro H.
+  - reflexivity.
+  - cbn [observed flat_map app map]. f_equal. apply IH. intros t Ht. apply (H (S t)). cbn. lia.
+  - exfalso. apply (H 0%nat); [cbn; lia|reflexivity].
+Qed.
+Lemma observed_nonempty : forall (l : oseries), observed l <> [] -> exists w, nth w l None <> None.
+Proof.
+  induction l as [|[x|] l IH]; intro H.
+  - exfalso. apply H. reflexivity.
+  - exists 0%nat. discriminate.
+  - destruct (IH H) as (w & Hw). exists (S w). exact Hw.
+Qed.
+
+(* the drift rule: the trend is fitted on the forward/backward-filled copy (a series without
+   gaps, of the same length), and a gap at position t takes the line's value a + b t *)
+Theorem impute_drift_rule (l : oseries) t : (t < length l)%nat -> nth t l None = None ->
+  observed l <> [] ->
+  let y := observed (final_fill l) in
+  map Some y = final_fill l /\ length y = length l /\
+  nth t (impute IDrift l) None = Some (fst (ols_line y) + snd (ols_line y) * Qn t).
+Proof.
+  intros Ht Hgap Hobs. cbv zeta.
+  assert (Hy : map Some (observed (final_fill l)) = final_fill l).
+  { apply all_some_observed. intros u Hu. apply final_fill_complete.
+    - rewrite <- (Forall2_len _ _ _ (ext_final_fill l)) in Hu. exact Hu.
+    - apply observed_nonempty. exact Hobs. }
+  split; [exact Hy|]. split.
+  - rewrite <- (map_length Some), Hy. apply eq_sym. eapply Forall2_len. apply ext_final_fill.
+  - unfold impute. apply (ext_nth _ _ (ext_final_fill _)). cbn [impute_core].
+    destruct (observed l) eqn:E; [congruence|].
+    destruct (ols_line (observed (final_fill l))) as [a b]. cbn [fst snd].
+    rewrite (nth_positions _ None l t Ht). rewrite Hgap. reflexivity.
+Qed.
+
+(* panel level: every instance is cut by the same k tiling intervals of the FITTED length *)
+Lemma interval_segment_panel_spec k pfit p out : iseg_int k pfit p = Ok out ->
+  let n := first_len pfit in
+  (1 <= k <= n / 2)%nat /\
+  Forall2 (fun i o => o = segment (split_bounds n k) (only_col i) /\ length o = k /\
+                      (length (only_col i) = n -> concat o = only_col i)) p out.
+Proof.
+  unfold iseg_int. cbv zeta. intro H.
+  destruct (negb (univariate p) || negb (equal_length p) || (k =? 0)%nat
+            || (first_len pfit / 2 <? k)%nat) eqn:E; [discriminate|].
+  injection H as <-.
+  assert (Hk : (1 <= k <= first_len pfit / 2)%nat) by lia.
+  split; [exact Hk|].
+  assert (Hn : (1 <= k <= first_len pfit)%nat).
+  { split; [lia|]. pose proof (Nat.div_le_upper_bound (first_len pfit) 2 (first_len pfit)).
+    assert (first_len pfit / 2 <= first_len pfit)%nat by (apply Nat.div_le_upper_bound; lia). lia. }
+  apply Forall2_map_in. intros i _.
+  split; [reflexivity|]. split.
+  - unfold segment. rewrite map_length.
+    destruct (interval_segment_spec (first_len pfit) k (repeat 0 (first_len pfit)) Hn
+                (repeat_length _ _)) as (HL & _). exact HL.
+  - intro Hlen. destruct (interval_segment_spec (first_len pfit) k (only_col i) Hn Hlen)
+      as (_ & _ & _ & Hc). exact Hc.
+Qed.
 
 Lemma nonvacuous_example :
   let p0 : panel := [[[1; 2; 3]; [4; 5]]; [[6; 7; 8; 9]; [1; 0]]] in
